@@ -12,20 +12,25 @@ ALLOWED_AXIOMS = []
 META = {
     "level_text": "Machine-checked proof (Coq) about literal models of nondominated_sort, crowding_distance, filters.truncate/matches/unique, "
                   "nondominated_sort_cmp/truncate/split/prune and truncate_fitness: rank 0 = exactly the non-dominated members and rank r+1 = exactly those "
-                  "whose dominators all have rank <= r with one at rank r (via C03's archive characterisation), the peeling loop terminates within len(population) "
-                  "rounds; crowding: extremes of every objective get +inf, interior members the sum over objectives of neighbour gap / range (exact arithmetic), "
-                  "non-negative, later duplicates 0; the stable sort is a sorted stable permutation and the unique one; truncate/prune return exactly min(k, n) "
-                  "distinct members, never keep a member while dropping one of smaller rank (truncate: nor, at equal rank, one of larger crowding distance); "
-                  "split returns the fronts that fit plus the single front to cut, with the k = 0, k >= n and front-boundary cases. The models are tied to /repo on "
-                  "every run by exact correspondence (ranks, crowding distances as exact rationals, identities returned for every k in 0..n+2; Coq vm_compute) "
-                  "and by brute-force depth / cut-law oracles on the real functions.",
-    "level_note": "Trusted: Coq kernel + VM; the harness (literal printer, shard runner, the float-exactness monitor); the hand-written models are tied to the code "
+                  "whose dominators all have rank <= r with one at rank r (via C03's archive characterisation), the peeling loop needs at most len(population) "
+                  "rounds and never fails on finite objectives; crowding: first/last of every objective's stable order get +inf, every member gets the sum over "
+                  "objectives of neighbour gap / range (exact arithmetic; +inf where the code assigns it for a range below EPSILON), non-negative, later duplicates 0; "
+                  "the stable sort is a sorted stable permutation and the unique one; truncate/prune return exactly min(k, n) distinct members, never keep a member "
+                  "while dropping one of smaller rank (truncate: nor, at equal rank, one of larger crowding distance); split returns the fronts that fit plus the "
+                  "single front to cut, with the k = 0, k >= n and front-boundary cases; prune's loop terminates. The models are tied to /repo on every run by exact "
+                  "correspondence (ranks, crowding distances as exact rationals, identities returned for every k in 0..n+2; Coq vm_compute) and by brute-force "
+                  "depth / cut-law oracles on the real functions (with a watchdog for non-terminating calls).",
+    "level_note": "Trusted: Coq kernel + VM; the harness (literal printer, shard runner, the float-exactness monitor XF); the hand-written models are tied to the code "
                   "only on the sampled populations (0-14 members over small dyadic lattices). Crowding theorems are about exact rational arithmetic: IEEE rounding "
                   "in the crowding sums is not modelled (the correspondence uses inputs on which every float operation of the implementation is exact, checked at "
-                  "run time with fractions.Fraction; inexact cases are discarded from the correspondence, counted, and still checked by the oracle). Python's "
-                  "sorted() is taken to be a stable sort (uniqueness of the stable sorted permutation is proved, so the algorithm is immaterial). Theorems assume "
-                  "well-formed solutions, identities that determine the object, finite objectives for crowding, natural-number sizes; NaN is outside the property. "
-                  "See the final report for statements proved only as *_partial. No axioms (all theorems closed under the global context).",
+                  "run time with fractions.Fraction on every +,-,*,/ the real code performs; inexact cases are discarded from the correspondence, counted, and still "
+                  "checked by the oracle with a 1e-9 tolerance). Python's sorted() is taken to be a stable sort (uniqueness of the stable sorted permutation is "
+                  "proved, so the algorithm is immaterial). Theorems assume well-formed solutions (as many objectives as directions, violation >= 0), identities "
+                  "that determine the object (sid_inj; NoDup of identities for the 'distinct members' clauses), finite objectives for crowding/totality, "
+                  "natural-number sizes (negative sizes are outside the property); non-finite objectives make the crowding model return None (NaN territory), "
+                  "NaN is outside the property. All statements of the design are proved in full (no *_partial). The oracle clause "
+                  "'prune-drops-extreme-before-interior' goes beyond the literal property text (it pins the documented use of crowding distance by "
+                  "nondominated_prune so that a flipped sort direction there yields a concrete failing input). No axioms (all theorems closed under the global context).",
     "technique": "Coq proof (generic comparator for ranks via C03, exact Q arithmetic for crowding, proved stable sort) + exact correspondence (vm_compute) + brute-force oracles",
 }
 
@@ -289,6 +294,27 @@ def oracle(case, ob):
             rstar += 1
         want_first = [s for r in range(rstar) for s in case.pop if rank[s] == r]
         want_last = [] if (rstar == nfronts or cum == k) else [s for s in case.pop if rank[s] == rstar]
+        # prune removes the least crowded member first (crowding recomputed after every removal): as long as at least
+        # 2*nobjs members of the cut front survive, no member with infinite crowding is ever removed, so every objective's
+        # minimum and maximum over the cut front are still attained by a survivor (stated on values: robust to tie order)
+        if distinct and want_last and len(prs) == min(k, n):
+            F = want_last
+            surv = [s for s in prs if s in F]
+            vecs = {tuple(case.pool[s][0]) for s in F}
+            if len(vecs) >= 3 and len(surv) >= 2 * nobj:
+                for i in range(nobj):
+                    lo = min(case.pool[s][0][i] for s in F)
+                    hi = max(case.pool[s][0][i] for s in F)
+                    if hi - lo < 2.0 ** -52:
+                        break
+                else:
+                    for i in range(nobj):
+                        lo = min(case.pool[s][0][i] for s in F)
+                        hi = max(case.pool[s][0][i] for s in F)
+                        if not any(case.pool[s][0][i] == lo for s in surv) or not any(case.pool[s][0][i] == hi for s in surv):
+                            out.append(("prune-drops-extreme-before-interior", "nondominated_prune(k=%d) cut front %r down to %r: objective %d extreme value %r/%r is lost although %d >= 2*%d members survive" % (
+                                k, F, surv, i, lo, hi, len(surv), nobj)))
+                            break
         if sorted(sf) != sorted(want_first) or sorted(sl) != sorted(want_last):
             out.append(("split-wrong-fronts", "nondominated_split(k=%d) = (%r, %r); fronts that fit = %r, front to cut = %r (front sizes %r)" % (
                 k, sf, sl, want_first, want_last, sizes)))
